@@ -352,6 +352,7 @@ type draft struct {
 	note   string
 	gas    *types.CoinID // forced gas coin
 	price1 bool          // force gas price 1
+	payer  *types.Address
 }
 
 // Next generates one transaction. It never returns nil.
@@ -453,7 +454,10 @@ func (g *TxGen) Envelope(d *draft) ([]byte, TxMeta) {
 	}
 	bz := spec.Encode()
 	meta := TxMeta{Type: byte(d.t), Sender: hex.EncodeToString(addr[:]), Nonce: spec.Nonce, GasCoin: uint32(spec.GasCoin), GasPrice: spec.GasPrice,
-		Kind: kind, Note: d.note, PayLen: len(spec.Payload) + len(spec.ServiceData), Msig: snd.M != nil}
+		Kind: kind, Note: d.note, PayLen: len(spec.Payload) + len(spec.ServiceData), Msig: snd.M != nil, Chain: byte(spec.ChainID)}
+	if d.payer != nil {
+		meta.Payer = hex.EncodeToString(d.payer[:])
+	}
 	return bz, meta
 }
 
@@ -1103,6 +1107,8 @@ func (g *TxGen) makeRedeem(kind string) *draft {
 	}
 	s := Senderish{K: red}
 	d := &draft{t: tx.TypeRedeemCheck, kind: kind, note: note, sender: &s, price1: true}
+	issuer := ic.Spec.Issuer.Addr
+	d.payer = &issuer
 	gc := ic.Spec.GasCoin
 	if !(kind == "invalid" && R.Intn(6) == 0) {
 		d.gas = &gc
@@ -1110,3 +1116,6 @@ func (g *TxGen) makeRedeem(kind string) *draft {
 	d.data = tx.RedeemCheckData{RawCheck: ic.Raw, Proof: CheckProof(pw, proofFor)}
 	return d
 }
+
+// TxT converts a byte to a TxType.
+func TxT(b byte) tx.TxType { return tx.TxType(b) }
